@@ -241,7 +241,7 @@ func runC12(c C12Case, cs *kit.CaseStats) error {
 					cp = a
 				}
 			}
-			ok := cp != nil && cp.Block.V2 != nil && tips[i].Height-h <= 9
+			ok := cp != nil && cp.Block.V2 != nil && tips[i].Height-h <= 9 && h > tr.Network.HardforkOak.Height
 			for _, t := range tips {
 				if ok && (t == nil || !cp.IsAncestorOf(t)) {
 					ok = false
